@@ -29,7 +29,7 @@ DELAYS = [0.05, 1.0, 2 - E, 2.0, 2 + E, 2.5, 4 - E, 4 + E, 5.9, None]
 FAULTS_DATA = ["timing", "drop_all", "garbage_random", "garbage_marker", "garbage_trunc", "fin_wait", "rst_wait",
                "fin_idle", "refuse", "hang", "cancel", "accept_close", "accept_reset"]
 FAULTS_V3 = ["error_packet", "hs_drop_all", "hs_drop_some", "hs_error", "hs_garbage_marker", "hs_garbage_random",
-             "hs_close", "hs_late"]
+             "hs_close", "hs_late", "dup_rejected"]
 
 
 def run_pair(plan):
@@ -386,6 +386,11 @@ def gen_fault(rng, version, kind=None, first=True):
         fx["net"] = [{"drop": True}] * n
     elif kind == "error_packet":
         fx["net"] = [{"error": True}]
+    elif kind == "dup_rejected":
+        # the answer to the first transmission is late; the unit rejects the retransmission (a duplicate to it) with
+        # an ERROR packet that arrives after the exchange has already ended well
+        fx["r"] = max(fx["r"], 2)
+        fx["net"] = [{"lat": rng.choice([2.2, 2.5, 3.0])}, {"error": True, "lat": rng.choice([0.8, 1.2, 1.5])}]
     elif kind == "garbage_random":
         fx["net"] = [{"raw": rand_bytes(rng, rng.choice([1, 5, 30, 100])).hex().replace("8370", "8371").replace("5a5a", "5a5b")}] * n
     elif kind == "garbage_marker":
@@ -444,6 +449,8 @@ def gen_fault(rng, version, kind=None, first=True):
             fx["hs"] = [{"lat": rng.choice([1.0, 2 - E, 2.0, 2 + E, 2.5, 4 + E, 5.9])} for _ in range(rng.randint(1, 3))]
     if rng.random() < 0.4:
         fx["idle"] = rng.choice([0.01, 0.5, 3.0, 7.0])
+    if kind == "dup_rejected":
+        fx["idle"] = rng.choice([3.0, 7.0])       # the late ERROR packet has arrived before anything else is tried
     return fx
 
 
